@@ -37,27 +37,34 @@ using phosg::expect_raises_fn;
 
 struct Outcome {
   bool threw = false; // anything left the helper
-  bool is_expectation_failed = false; // ... and its dynamic type is exactly phosg::expectation_failed
+  bool is_expectation_failed = false; // ... and it is a phosg::expectation_failed (or derived from it)
   std::string other_type; // typeid name when it was something else
   std::string what;
   std::string file;
   uint64_t line = 0;
-  const char* msg_ptr = nullptr; // only dereferenced when the message is known to be a literal
+  // the message, copied while the exception object is alive - and only on request: for the comparison macros the statement
+  // promises the message; what expect_raises puts there is not specified (in /repo it points into a string that is gone)
+  bool has_msg = false;
+  std::string msg;
 };
 
 // (type-erased on purpose: one instantiation of the catch ladder / of the contexts instead of one per matrix cell)
-static Outcome observe(const std::function<void()>& f) {
+static Outcome observe(const std::function<void()>& f, bool copy_msg = false) {
   Outcome o;
   try {
     f();
   } catch (const phosg::expectation_failed& e) {
     o.threw = true;
-    o.is_expectation_failed = (typeid(e) == typeid(phosg::expectation_failed));
-    if (!o.is_expectation_failed) o.other_type = typeid(e).name();
+    // "throws expectation_failed": a class derived from it IS-A expectation_failed (the handler above selects it)
+    o.is_expectation_failed = true;
+    if (typeid(e) != typeid(phosg::expectation_failed)) ctx().cls("failure-is-a-class-derived-from-expectation_failed");
     o.what = e.what();
     o.file = e.file ? e.file : "(null)";
     o.line = e.line;
-    o.msg_ptr = e.msg;
+    if (copy_msg && e.msg) {
+      o.has_msg = true;
+      o.msg = e.msg;
+    }
   } catch (const std::exception& e) {
     o.threw = true;
     o.other_type = typeid(e).name();
@@ -130,9 +137,9 @@ static void in_context(uint64_t where, const Thunk& f) {
   }
 }
 
-static Outcome observe_in(uint64_t where, const Thunk& f) {
+static Outcome observe_in(uint64_t where, const Thunk& f, bool copy_msg = false) {
   Outcome o;
-  in_context(where, [&] { o = observe(f); });
+  in_context(where, [&] { o = observe(f, copy_msg); });
   return o;
 }
 
@@ -151,7 +158,7 @@ static void check_failure(const Outcome& o, const char* file, uint64_t line, con
     VCHECK(o.what.find(what_must_contain) != std::string::npos, cat("what-message:", cls), "what() = '", o.what, "' does not contain '", what_must_contain, "'");
   }
   if (msg_is_literal) {
-    VCHECK(o.msg_ptr != nullptr && msg == o.msg_ptr, cat("failure-msg:", cls), "expectation_failed::msg is '", (o.msg_ptr ? o.msg_ptr : "(null)"), "' expected '", msg, "'");
+    VCHECK(o.has_msg && msg == o.msg, cat("failure-msg:", cls), "expectation_failed::msg is '", (o.has_msg ? o.msg : std::string("(null)")), "' expected '", msg, "'");
   }
 }
 
@@ -180,42 +187,42 @@ static void run_relation(uint64_t rel, const T& a, const T& b, TruthFn truth, co
   switch (rel) {
     case 0:
       expected = (a == b);
-      o = observe_in(where, [&] { SITE(expect_eq(a, b)); });
+      o = observe_in(where, [&] { SITE(expect_eq(a, b)); }, true);
       msg = kRelMsg[0];
       break;
     case 1:
       expected = (a != b);
-      o = observe_in(where, [&] { SITE(expect_ne(a, b)); });
+      o = observe_in(where, [&] { SITE(expect_ne(a, b)); }, true);
       msg = kRelMsg[1];
       break;
     case 2:
       expected = (a > b);
-      o = observe_in(where, [&] { SITE(expect_gt(a, b)); });
+      o = observe_in(where, [&] { SITE(expect_gt(a, b)); }, true);
       msg = kRelMsg[2];
       break;
     case 3:
       expected = (a >= b);
-      o = observe_in(where, [&] { SITE(expect_ge(a, b)); });
+      o = observe_in(where, [&] { SITE(expect_ge(a, b)); }, true);
       msg = kRelMsg[3];
       break;
     case 4:
       expected = (a < b);
-      o = observe_in(where, [&] { SITE(expect_lt(a, b)); });
+      o = observe_in(where, [&] { SITE(expect_lt(a, b)); }, true);
       msg = kRelMsg[4];
       break;
     case 5:
       expected = (a <= b);
-      o = observe_in(where, [&] { SITE(expect_le(a, b)); });
+      o = observe_in(where, [&] { SITE(expect_le(a, b)); }, true);
       msg = kRelMsg[5];
       break;
     case 6:
       expected = truth(a);
-      o = observe_in(where, [&] { SITE(expect(truth(a))); });
+      o = observe_in(where, [&] { SITE(expect(truth(a))); }, true);
       msg = "!(truth(a))";
       break;
     case 7:
       expected = truth(a) || truth(b);
-      o = observe_in(where, [&] { SITE(expect_msg(truth(a) || truth(b), "custom message 7f3a")); });
+      o = observe_in(where, [&] { SITE(expect_msg(truth(a) || truth(b), "custom message 7f3a")); }, true);
       msg = "custom message 7f3a";
       break;
     default:
@@ -276,10 +283,10 @@ static void run_truth_t(uint64_t helper, T v, bool expected, uint64_t where, con
   std::string msg;
   Outcome o;
   if (helper == 0) {
-    o = observe_in(where, [&] { SITE(expect(v)); });
+    o = observe_in(where, [&] { SITE(expect(v)); }, true);
     msg = "!(v)";
   } else if (helper == 1) {
-    o = observe_in(where, [&] { SITE(expect_msg(v, "truth message 51c2")); });
+    o = observe_in(where, [&] { SITE(expect_msg(v, "truth message 51c2")); }, true);
     msg = "truth message 51c2";
   } else {
     throw std::logic_error("bad helper code");
@@ -901,42 +908,42 @@ static void run_once_t(uint64_t rel, Source<T> a, Source<T> b, TruthFn truth, co
   switch (rel) {
     case 0:
       expected = (a.v0 == b.v0);
-      o = observe_in(where, [&] { SITE(expect_eq(a.next(), b.next())); });
+      o = observe_in(where, [&] { SITE(expect_eq(a.next(), b.next())); }, true);
       msg = "a.next() != b.next()";
       break;
     case 1:
       expected = (a.v0 != b.v0);
-      o = observe_in(where, [&] { SITE(expect_ne(a.next(), b.next())); });
+      o = observe_in(where, [&] { SITE(expect_ne(a.next(), b.next())); }, true);
       msg = "a.next() == b.next()";
       break;
     case 2:
       expected = (a.v0 > b.v0);
-      o = observe_in(where, [&] { SITE(expect_gt(a.next(), b.next())); });
+      o = observe_in(where, [&] { SITE(expect_gt(a.next(), b.next())); }, true);
       msg = "a.next() <= b.next()";
       break;
     case 3:
       expected = (a.v0 >= b.v0);
-      o = observe_in(where, [&] { SITE(expect_ge(a.next(), b.next())); });
+      o = observe_in(where, [&] { SITE(expect_ge(a.next(), b.next())); }, true);
       msg = "a.next() < b.next()";
       break;
     case 4:
       expected = (a.v0 < b.v0);
-      o = observe_in(where, [&] { SITE(expect_lt(a.next(), b.next())); });
+      o = observe_in(where, [&] { SITE(expect_lt(a.next(), b.next())); }, true);
       msg = "a.next() >= b.next()";
       break;
     case 5:
       expected = (a.v0 <= b.v0);
-      o = observe_in(where, [&] { SITE(expect_le(a.next(), b.next())); });
+      o = observe_in(where, [&] { SITE(expect_le(a.next(), b.next())); }, true);
       msg = "a.next() > b.next()";
       break;
     case 6:
       expected = truth(a.v0);
-      o = observe_in(where, [&] { SITE(expect(truth(a.next()))); });
+      o = observe_in(where, [&] { SITE(expect(truth(a.next()))); }, true);
       msg = "!(truth(a.next()))";
       break;
     case 7:
       expected = truth(a.v0);
-      o = observe_in(where, [&] { SITE(expect_msg(truth(a.next()), m.get("once message 9d1e"))); });
+      o = observe_in(where, [&] { SITE(expect_msg(truth(a.next()), m.get("once message 9d1e"))); }, true);
       msg = "once message 9d1e";
       break;
     default:
